@@ -61,10 +61,34 @@
 using namespace icinga;
 using namespace vh;
 
+/* Private members of CheckerComponent, by NAME only (the explicit-instantiation idiom with an `auto` non-type parameter):
+ * the harness does not spell the members' types, so a different but equivalent container / mutex type still compiles. */
 namespace vh {
-VH_ROB_MEMBER(C04IdleTag, CheckerComponent, CheckerComponent::CheckableSet, m_IdleCheckables)
-VH_ROB_MEMBER(C04PendTag, CheckerComponent, CheckerComponent::CheckableSet, m_PendingCheckables)
-VH_ROB_MEMBER(C04MtxTag, CheckerComponent, std::mutex, m_Mutex)
+template<typename Tag, auto M>
+struct RobAuto {
+	friend auto get(Tag) { return M; }
+};
+struct C04IdleTag { friend auto get(C04IdleTag); };
+struct C04PendTag { friend auto get(C04PendTag); };
+struct C04MtxTag { friend auto get(C04MtxTag); };
+template struct RobAuto<C04IdleTag, &CheckerComponent::m_IdleCheckables>;
+template struct RobAuto<C04PendTag, &CheckerComponent::m_PendingCheckables>;
+template struct RobAuto<C04MtxTag, &CheckerComponent::m_Mutex>;
+}
+
+/* Membership / key of a checkable in one of the checker's sets: a plain scan over whatever the container iterates, looking only at
+ * the entries' `Object` and `NextCheck` (no assumption about index kinds, their order, or the iteration order). */
+template<typename Set>
+static bool FindIn(Set& set, const Checkable *obj, double *key)
+{
+	for (const auto& e : set) {
+		if (e.Object.get() == obj) {
+			if (key)
+				*key = e.NextCheck;
+			return true;
+		}
+	}
+	return false;
 }
 
 static long long Us(double t) { return llround(t * 1e6); }
@@ -218,20 +242,21 @@ static void Hook(const char *name, const void *obj)
 	r.cid = cid;
 	bool sets = false;
 
-	if (name[0] == 's') { /* sched.* */
+	/* exact names only: a point this harness does not know (added later, renamed) is not an event of the trace */
+	bool onSched = !strncmp(name, "sched.", 6);
+	if (onSched) {
 		if (!l_SchedTid.load(std::memory_order_relaxed))
 			l_SchedTid = (long)syscall(SYS_gettid);
 		l_LastSchedUs.store(Us(Utility::GetTime()), std::memory_order_relaxed);
-		if (!strcmp(name, "sched.pick")) { r.kind = kPick; r.a = 0; sets = true; }
-		else if (!strcmp(name, "sched.pick.forced")) { r.kind = kPick; r.a = 1; sets = true; }
-		else if (!strcmp(name, "sched.skip")) { r.kind = kSkip; sets = true; }
-		else { MaybeDelay(); return; } /* sched.dispatch: outside the lock, delay only */
-	} else if (name[0] == 'h') {
-		if (!strcmp(name, "helper.finish")) { r.kind = kFin; sets = true; }
-		else if (!strcmp(name, "helper.dec")) r.kind = kDec;
-		else { MaybeDelay(); return; } /* helper.start */
-	} else if (name[0] == 'o') { r.kind = kObj; sets = true; }
-	else if (name[0] == 'n') { r.kind = kNc; sets = true; }
+	}
+	if (!strcmp(name, "sched.pick")) { r.kind = kPick; r.a = 0; sets = true; }
+	else if (!strcmp(name, "sched.pick.forced")) { r.kind = kPick; r.a = 1; sets = true; }
+	else if (!strcmp(name, "sched.skip")) { r.kind = kSkip; sets = true; }
+	else if (!strcmp(name, "sched.dispatch") || !strcmp(name, "helper.start")) { MaybeDelay(); return; } /* outside the lock: delay only */
+	else if (!strcmp(name, "helper.finish")) { r.kind = kFin; sets = true; }
+	else if (!strcmp(name, "helper.dec")) r.kind = kDec;
+	else if (!strcmp(name, "object.done")) { r.kind = kObj; sets = true; }
+	else if (!strcmp(name, "nextcheck.reindex")) { r.kind = kNc; sets = true; }
 	else if (!strcmp(name, "guard.enter")) r.kind = kGE;
 	else if (!strcmp(name, "guard.busy")) r.kind = kGB;
 	else if (!strcmp(name, "guard.reset")) r.kind = kGR;
@@ -242,11 +267,10 @@ static void Hook(const char *name, const void *obj)
 		CheckerComponent *cc = l_Checker.get();
 		auto& idle = cc->*get(C04IdleTag());
 		auto& pend = cc->*get(C04PendTag());
-		Checkable::Ptr key(l_C[cid]->obj);
-		auto ii = idle.find(key);
-		r.inIdle = ii != idle.end();
-		r.key = r.inIdle ? Us(ii->NextCheck) : 0;
-		r.inPending = pend.find(key) != pend.end();
+		double k = 0;
+		r.inIdle = FindIn(idle, l_C[cid]->obj.get(), &k);
+		r.key = r.inIdle ? Us(k) : 0;
+		r.inPending = FindIn(pend, l_C[cid]->obj.get(), nullptr);
 		r.now = Us(Utility::GetTime());
 		if (r.kind == kPick || r.kind == kSkip) {
 			r.counter = Checkable::GetPendingChecks();
@@ -333,7 +357,7 @@ static void ExecFn(const Checkable::Ptr& checkable, const CheckResult::Ptr& cr, 
 			{
 				/* PluginCheckTask::ProcessFinishedHandler: give the unit back first; under the checker's mutex so that the
 				 * trace order is the order in which the scheduler saw the counter */
-				std::unique_lock<std::mutex> lock(l_Checker.get()->*get(C04MtxTag()));
+				auto& cmtx = l_Checker.get()->*get(C04MtxTag()); std::unique_lock<std::remove_reference_t<decltype(cmtx)>> lock(cmtx);
 				Rec r{}; r.kind = kPd; r.cid = cid; Append(r);
 				Checkable::DecreasePendingChecks();
 			}
@@ -343,7 +367,7 @@ static void ExecFn(const Checkable::Ptr& checkable, const CheckResult::Ptr& cr, 
 		}).detach();
 		MaybeDelay();
 		{
-			std::unique_lock<std::mutex> lock(l_Checker.get()->*get(C04MtxTag()));
+			auto& cmtx = l_Checker.get()->*get(C04MtxTag()); std::unique_lock<std::remove_reference_t<decltype(cmtx)>> lock(cmtx);
 			Checkable::IncreasePendingChecks();
 			Rec r{}; r.kind = kPi; r.cid = cid; Append(r);
 		}
@@ -411,7 +435,7 @@ static void OpForce(int cid)
 	CInfo& ci = *l_C[cid];
 	/* the scheduler reads force_next_check inside its critical section: write and log under the same mutex so that
 	 * the trace order is the real order (the attribute has no handler in the checker, so nothing re-enters) */
-	std::unique_lock<std::mutex> lock(l_Checker.get()->*get(C04MtxTag()));
+	auto& cmtx = l_Checker.get()->*get(C04MtxTag()); std::unique_lock<std::remove_reference_t<decltype(cmtx)>> lock(cmtx);
 	ci.obj->SetForceNextCheck(true);
 	Rec r{}; r.kind = kForce; r.cid = cid; Append(r);
 }
@@ -642,7 +666,7 @@ static int RunScenario(const std::vector<std::string>& w)
 				bool due = false;
 				int cnt = Checkable::GetPendingChecks();
 				{
-					std::unique_lock<std::mutex> lock(l_Checker.get()->*get(C04MtxTag()));
+					auto& cmtx = l_Checker.get()->*get(C04MtxTag()); std::unique_lock<std::remove_reference_t<decltype(cmtx)>> lock(cmtx);
 					auto& idle = l_Checker.get()->*get(C04IdleTag());
 					for (const auto& csi : idle)
 						if (Us(csi.NextCheck) < nowUs - 250000) { due = true; break; }
@@ -726,7 +750,7 @@ static int RunScenario(const std::vector<std::string>& w)
 	std::this_thread::sleep_for(std::chrono::milliseconds(boundMs + 300));
 	long long overdueMax = 0;
 	{
-		std::unique_lock<std::mutex> lock(l_Checker.get()->*get(C04MtxTag()));
+		auto& cmtx = l_Checker.get()->*get(C04MtxTag()); std::unique_lock<std::remove_reference_t<decltype(cmtx)>> lock(cmtx);
 		auto& idle = l_Checker.get()->*get(C04IdleTag());
 		double now = Utility::GetTime();
 		for (const auto& csi : idle)
@@ -743,16 +767,16 @@ static int RunScenario(const std::vector<std::string>& w)
 
 	PrintTrace(stdout);
 	{
-		std::unique_lock<std::mutex> lock(l_Checker.get()->*get(C04MtxTag()));
+		auto& cmtx = l_Checker.get()->*get(C04MtxTag()); std::unique_lock<std::remove_reference_t<decltype(cmtx)>> lock(cmtx);
 		auto& idle = l_Checker.get()->*get(C04IdleTag());
 		auto& pend = l_Checker.get()->*get(C04PendTag());
 		for (int i = 0; i < total; i++) {
 			Checkable::Ptr key(l_C[i]->obj);
-			auto ii = idle.find(key);
-			bool inIdle = ii != idle.end();
+			double k = 0;
+			bool inIdle = FindIn(idle, key.get(), &k);
 			bool sched = key->IsActive() && !key->IsPaused();
-			printf("Q %d | %d %d %d %lld %lld\n", i, sched ? 1 : 0, inIdle ? 1 : 0, pend.find(key) != pend.end() ? 1 : 0,
-				inIdle ? Us(ii->NextCheck) : 0, Us(key->GetNextCheck()));
+			printf("Q %d | %d %d %d %lld %lld\n", i, sched ? 1 : 0, inIdle ? 1 : 0, FindIn(pend, key.get(), nullptr) ? 1 : 0,
+				inIdle ? Us(k) : 0, Us(key->GetNextCheck()));
 		}
 	}
 	done = true;
